@@ -53,7 +53,7 @@ CHECKS = {
          "The C01 pipeline set (every subscription type) is driven through every action history with unsubscribe at every position and is_closed() sampled after each action: never true then false, nothing delivered after true; every sequence of append/child-finishes/retain/clone/unsubscribe on MultiSubscription(+Threads) and ZipSubscription.", "5/C17"),
  "C18": ([E1], "bounded-exhaustive differential execution of every generated pipeline in its all-local and all-thread-safe instantiation over the same action histories",
          "The C01 pipeline set is built twice from the same AST (local types vs *_threads / *Threads types) and both instances are driven through every action history up to the length bound; traces must be identical after every action.", "5/C18"),
- "C19": ([E1], "bounded-exhaustive enumeration of task sets x cancellation points x run orders x clock advances on the real scheduler (LocalSpawner) behind a gate",
+ "C19": ([E1, E2], "bounded-exhaustive enumeration of task sets x cancellation points x run orders x clock advances on the real scheduler (LocalSpawner) behind a gate; plus exhaustive preemption-bounded DFS over interleavings of a running task body and a thread cancelling its handle",
          "Sets of 1-3 tasks of every task type with every delay are scheduled on the real LocalSpawner implementation; every sequence of cancel/resolve/tick/jump/run-in-any-order up to the length bound is executed and run counters, times, sequence numbers, cancellation and is_closed() are checked after every action.", "5/C19"),
  "C20": ([E1], "bounded-exhaustive enumeration of input scripts x key functions on the real group_by with a probe attached to every group at announcement",
          "Every script up to the length bound over a 4-value alphabet with every terminal and three key functions is executed on both subject kinds; announcements, per-group traces and the flattened output are compared with the model after every event.", "5/C20"),
